@@ -232,9 +232,12 @@ impl FileHasher<'_> {
     ) -> Result<FileHasher<'_>, Error> {
         // Everything that determines what data get hashed must be a part of the cache identity.
         // With `in_place` the output is read from the input file instead of the standard output.
+        // Without `copy` the program is given the file itself as `$IN`, not a temporary copy
+        // with a different name, directory and timestamps.
         let transform_id = transform.as_ref().map(|t| {
             let mode = if t.in_place { "in-place:" } else { "" };
-            format!("{}{}", mode, t.command_str)
+            let input = if t.copy { "" } else { "no-copy:" };
+            format!("{}{}{}", mode, input, t.command_str)
         });
         let cache = HashCache::open_default(transform_id.as_deref(), algorithm)?;
         Ok(FileHasher {
